@@ -54,7 +54,8 @@ pub fn veq(a: &V, b: &V) -> bool {
         (V::Nil, V::Nil) => true,
         (V::Flag(x), V::Flag(y)) => x == y,
         (V::Int(x), V::Int(y)) => x == y,
-        (V::Real(x), V::Real(y)) => f64::from_bits(*x) == f64::from_bits(*y),
+        // (a NaN result is compared as 'also a NaN': the language's equality is not reflexive on it)
+        (V::Real(x), V::Real(y)) => f64::from_bits(*x) == f64::from_bits(*y) || (f64::from_bits(*x).is_nan() && f64::from_bits(*y).is_nan()),
         (V::Str(x), V::Str(y)) => x == y,
         (V::Bits(x), V::Bits(y)) => x == y,
         (V::Vec(x), V::Vec(y)) => x.len() == y.len() && x.iter().zip(y.iter()).all(|(p, q)| veq(p, q)),
